@@ -136,6 +136,10 @@ func signedarea(polygon []Point) float64 {
 // actually inside the outer rings.
 // This has not been thoroughly tested.
 func (p Polygon) Centroid() Point {
+	if s, o, e, ok := centroidFrame([]Polygon{p}); ok {
+		c := s[0].Centroid()
+		return Point{X: o.X + math.Ldexp(c.X, e), Y: o.Y + math.Ldexp(c.Y, e)}
+	}
 	var A, xA, yA float64
 	for _, r := range p {
 		a := signedarea(r)
@@ -171,4 +175,43 @@ func ringCentroid(r []Point, sa float64) (cx, cy float64) {
 		cy += (y0 + y1) * cross
 	}
 	return o.X + cx/(6*sa), o.Y + cy/(6*sa)
+}
+
+// centroidFrame prepares polygons of extreme size for the centroid sums. Those
+// sums are cubic in the extent of the figure: for a square of side 1e103 they
+// overflow (the centroid came back as +Inf), for one of side 1e-108 they
+// underflow to zero (the centroid came back as the origin or NaN). Where the
+// extent lies beyond 1e100 or below 1e-100, centroidFrame returns a copy of
+// the polygons relative to their first vertex o and scaled by 2^-e, which is
+// exact, so that the extent of the copy is between 1/2 and 1; the centroid of
+// the original is o + 2^e * (centroid of the copy). ok is false where no
+// rescaling is needed (or possible), and the polygons are then used as they are.
+func centroidFrame(polys []Polygon) (scaled []Polygon, o Point, e int, ok bool) {
+	first := true
+	var ext float64
+	for _, p := range polys {
+		for _, r := range p {
+			for _, pt := range r {
+				if first {
+					o, first = pt, false
+				}
+				ext = math.Max(ext, math.Max(math.Abs(pt.X-o.X), math.Abs(pt.Y-o.Y)))
+			}
+		}
+	}
+	if first || ext == 0 || math.IsInf(ext, 0) || math.IsNaN(ext) || (ext < 1e100 && ext > 1e-100) {
+		return nil, o, 0, false
+	}
+	_, e = math.Frexp(ext)
+	scaled = make([]Polygon, len(polys))
+	for i, p := range polys {
+		scaled[i] = make(Polygon, len(p))
+		for j, r := range p {
+			scaled[i][j] = make(Path, len(r))
+			for k, pt := range r {
+				scaled[i][j][k] = Point{X: math.Ldexp(pt.X-o.X, -e), Y: math.Ldexp(pt.Y-o.Y, -e)}
+			}
+		}
+	}
+	return scaled, o, e, true
 }
